@@ -8,6 +8,16 @@
      op 3 uid excl k ids*k m (node cpu mem)*m                             pod event (annotations -> Update)
      op 4 uid n bindreq bind required excl hintflag H bits*H cpu mem hostflag host victimflag victim
           Allocate with give-backs (Spec.concretize); on success Release(victim) and Update
+     op 5 kind uid assigned oldassigned phase bad excl k ids*k m (node cpu mem)*m
+          informer event delivered to the real podEventHandler (Model.podev): kind 0 OnAdd,
+          1 OnUpdate, 2 OnDelete(a pod), 3 OnDelete(tombstone of the pod), 4 OnDelete(tombstone of
+          another object), 5 OnAdd(not a pod), 6 the ForgetPod hook, 7 OnUpdate(not a pod, pod);
+          phase 0 Pending 1 Running 2 Succeeded 3 Failed; bad 1 resource-status is not JSON,
+          2 the cpuset string does not parse, 3 resource-spec is not JSON
+     op 6 uid
+          the informer echoes pod uid as bound: the allocation Allocate returned for it (or the
+          last event spelled) is written to a pod by the real Plugin.preBindObject and delivered
+          by OnUpdate; nothing is delivered when the history has no live allocation for uid
    observable, per op: ok  k ids*k  m (node cpu mem)*m   L (id ref excl)*L   V avail*V
                        then (cpu mem) of allocatedResources for node 0..7 *)
 From Coq Require Import List ZArith Bool.
@@ -56,14 +66,25 @@ Definition dec_op (l : list Z) : op * list Z :=
   | _ => (ORelease (-1), [])
   end.
 
+Definition dec_item (l : list Z) : item * list Z :=
+  match l with
+  | 5 :: kind :: uid :: assigned :: oldassigned :: phase :: bad :: excl :: t =>
+    let '(cpus, t1) := take_list t in
+    let '(nr, t2) := decode_seq dec_nres t1 in
+    (IEvent (mkEv kind (zb assigned) (zb oldassigned) (2 <=? phase) (zb bad)
+                  (mkP uid (dedup cpus) excl nr)), t2)
+  | 6 :: uid :: t => (IEcho uid, t)
+  | _ => let '(x, t) := dec_op l in (IOp x, t)
+  end.
+
 (* header and operation list; the rest of the input is returned *)
-Definition decode_hist (inp : list Z) : nopts * list op * list Z :=
+Definition decode_hist (inp : list Z) : nopts * list item * list Z :=
   match inp with
   | maxref :: most :: t =>
     let '(T, t1) := decode_seq dec_cpu t in
     let '(rsv, t2) := decode_seq dec_range t1 in
     let '(cap, t3) := decode_seq dec_nres t2 in
-    let '(ops, t4) := decode_seq dec_op t3 in
+    let '(ops, t4) := decode_seq dec_item t3 in
     (mkO T maxref (dedup (concat rsv)) (zb most) cap, ops, t4)
   | _ => (mkO [] 1 [] false [], [], [])
   end.
@@ -105,10 +126,18 @@ Definition obs_step (o : nopts) (st : lstate) (es : list edge) (x0 : op) : lstat
     end in
   (st', es', head ++ dump o st').
 
-Fixpoint run_ops (o : nopts) (st : lstate) (es : list edge) (ops : list op) : lstate * list edge * list Z :=
+(* an informer event is observed as the resourceManager call the handler turns it into *)
+Definition obs_istep (o : nopts) (st : lstate) (es : list edge) (h : item) : lstate * list edge * list Z :=
+  match h, lower (l_pods st) h with
+  | IEcho _, Some x => let st' := fst (step o st x) in (st', es, [1; 0; 0] ++ dump o st')
+  | _, Some x => obs_step o st es x
+  | _, None => (st, es, [1; 0; 0] ++ dump o st)
+  end.
+
+Fixpoint run_ops (o : nopts) (st : lstate) (es : list edge) (ops : list item) : lstate * list edge * list Z :=
   match ops with
   | [] => (st, es, [])
-  | x :: t => let '(st', es', out) := obs_step o st es x in
+  | x :: t => let '(st', es', out) := obs_istep o st es x in
               let '(st'', es'', out') := run_ops o st' es' t in (st'', es'', out ++ out')
   end.
 
